@@ -83,7 +83,7 @@ def p2pPlan (a : Actor) (peer : Uid) (u1 u2 : User) (subs : List SubRow) (mode :
 
 /-- cases 1 and 2: read the two accounts, make what is missing, cache both participants -/
 def Ctx.p2pMake (c : Ctx) (a : Actor) (peer : Uid) (mode : String) (priv : PrivArg) (userArg : Uid) (rowExists : Bool)
-    (subs : List SubRow) (lastId delId : Int) : Ctx × Option P2PInit :=
+    (subs : List SubRow) (lastId delId : Int) (ro : Bool := false) : Ctx × Option P2PInit :=
   let key := p2pKey a.uid peer
   let (c, ok) := c.call "UserGetAll"
   if !ok then (c.emit a.sid (ctrl 500 key), none) else
@@ -99,7 +99,7 @@ def Ctx.p2pMake (c : Ctx) (a : Actor) (peer : Uid) (mode : String) (priv : PrivA
     let (c, ok) := if rowExists then c.subsCreate key (if p.user1only then p.sub1 else p.sub2)
                    else c.call "TopicCreateP2P" (effCreateP2P key p.sub1 p.sub2)
     if !ok then (c.emit a.sid (ctrl 500 key), none) else
-    let t : Topic := { name := key, lastId := lastId, delId := delId, perUser := [(a.uid, pudOfRow p.sub1), (peer, pudOfRow p.sub2)] }
+    let t : Topic := { name := key, lastId := lastId, delId := delId, perUser := [(a.uid, pudOfRow p.sub1), (peer, pudOfRow p.sub2)], readOnly := ro }
     (c.putLive t, some { t := t, created := p.created, newsub := p.newsub })
   | _, _ => (c.emit a.sid (ctrl 404 key), none)
 
@@ -121,11 +121,13 @@ def Ctx.initP2P (c : Ctx) (a : Actor) (peer : Uid) (mode : String) (priv : PrivA
   if row.isSome ∧ subs.isEmpty then fail c 500 else     -- case 3: both subscriptions are missing
   let lastId := match row with | some r => r.seq | none => 0
   let delId := match row with | some r => r.del | none => 0
+  -- the topic of a suspended participant is read-only, in memory as in the store
+  let ro : Bool := match row with | some r => r.state = 10 | none => false
   if row.isSome ∧ subs.length = 2 then
     -- case 4: attach
-    let t : Topic := { name := key, lastId := lastId, delId := delId, perUser := subs.map (fun s => (s.user, pudOfRow s)) }
+    let t : Topic := { name := key, lastId := lastId, delId := delId, perUser := subs.map (fun s => (s.user, pudOfRow s)), readOnly := ro }
     (c.putLive t, some { t := t, created := false, newsub := false })
-  else c.p2pMake a peer mode priv userArg row.isSome subs lastId delId
+  else c.p2pMake a peer mode priv userArg row.isSome subs lastId delId ro
 
 /-! ### evictUser, notifySubChange: the p2p branches -/
 
@@ -637,8 +639,9 @@ def Ctx.opDelTopicP2P (c : Ctx) (a : Actor) (peer : Uid) (hard : Bool) : Ctx :=
             else c
           c.emit a.sid (ctrl 200 tn)
   | some t =>
-    if t.subsCountP2P < 2 then
-      -- the last participant (or one who has already left) deletes the topic: always for good
+    if decide (t.subsCountP2P < 2) && (match t.pud? a.uid with | some p => !p.deleted | none => false) then
+      -- the last participant deletes the topic: always for good (somebody who has left already is served like anybody who
+      -- unsubscribes: nothing to delete)
       let (c, ok) := c.call "TopicDelete" (fun w => w.delRow tn)
       if !ok then c.emit a.sid (ctrl 500 tn) else
       let c := c.emit a.sid (ctrl 200 tn)
